@@ -149,10 +149,22 @@ type filler struct {
 
 func (f *filler) pick(xs ...string) string { return xs[f.rng.IntN(len(xs))] }
 
-func (f *filler) addr() string {
+// addr: account-like strings. signer = the field names an account of this chain (a signer, an authority);
+// other address fields (destinations, contracts, external addresses) take external forms just as often.
+func (f *filler) addr(signer bool) string {
 	k := f.c.Users[f.rng.IntN(len(f.c.Users))]
 	if f.sane && f.rng.IntN(10) != 0 {
-		return k.Bech32()
+		if signer {
+			return k.Bech32()
+		}
+		switch f.rng.IntN(4) {
+		case 0:
+			return k.Bech32()
+		case 1:
+			return crosschaintypes.ExternalAddrToStr("tron", k.Hex().Bytes())
+		default:
+			return k.Hex().Hex()
+		}
 	}
 	switch f.rng.IntN(9) {
 	case 0:
@@ -183,10 +195,12 @@ func (f *filler) str(name string) string {
 		return f.pick("eth", "bsc", "tron", "polygon", "", "nochain", "ETH", "eth ")
 	case strings.Contains(n, "denom"):
 		return f.pick(fxtypes.DefaultDenom, "usdt", "", "!!", "ibc/27394FB092D2ECCD56123C74F36E4C1F926001CEADA9CA97EA622B25F41E5EB2", "eth0x0000000000000000000000000000000000000001", strings.Repeat("a", 200))
-	case strings.Contains(n, "addr") || strings.Contains(n, "sender") || strings.Contains(n, "author") || strings.Contains(n, "bridger") || strings.Contains(n, "oracle") ||
-		strings.Contains(n, "receiver") || strings.Contains(n, "from") || n == "to" || strings.Contains(n, "dest") || strings.Contains(n, "refund") || strings.Contains(n, "contract") ||
-		strings.Contains(n, "signer") || strings.Contains(n, "depositor") || strings.Contains(n, "voter") || strings.Contains(n, "proposer") || strings.Contains(n, "delegator") || strings.Contains(n, "validator") || strings.Contains(n, "origin") || strings.Contains(n, "token") || strings.Contains(n, "granter") || strings.Contains(n, "grantee") || strings.Contains(n, "admin"):
-		return f.addr()
+	case strings.Contains(n, "sender") || strings.Contains(n, "author") || strings.Contains(n, "bridger") || strings.Contains(n, "oracleaddr") || n == "oracle" || strings.Contains(n, "from") ||
+		strings.Contains(n, "signer") || strings.Contains(n, "depositor") || strings.Contains(n, "voter") || strings.Contains(n, "proposer") || strings.Contains(n, "delegator") || strings.Contains(n, "granter") || strings.Contains(n, "grantee") || strings.Contains(n, "admin"):
+		return f.addr(true)
+	case strings.Contains(n, "addr") || strings.Contains(n, "receiver") || n == "to" || strings.Contains(n, "dest") || strings.Contains(n, "refund") || strings.Contains(n, "contract") ||
+		strings.Contains(n, "validator") || strings.Contains(n, "origin") || strings.Contains(n, "token") || strings.Contains(n, "oracle"):
+		return f.addr(false)
 	case strings.Contains(n, "signature") || strings.Contains(n, "data") || strings.Contains(n, "memo") || strings.Contains(n, "hash") || strings.Contains(n, "checkpoint"):
 		return f.pick("", "00", "zz", hex.EncodeToString(make([]byte, f.rng.IntN(70))), "0x"+hex.EncodeToString(make([]byte, 65)), strings.Repeat("ab", 65), "0")
 	case strings.Contains(n, "amount") || strings.Contains(n, "value") || strings.Contains(n, "fee"):
@@ -769,7 +783,10 @@ func c20Parsers(spec c20Spec, res *core.CaseResult, verbose bool) {
 		})
 		call("ValidateEthereumAddress", s, func() { _ = contract.ValidateEthereumAddress(s) })
 		call("ValidateTronAddress", s, func() { _ = trontypes.ValidateTronAddress(s) })
-		call("GetIbcDenomTrace", s, func() { _, _ = fxtypes.GetIbcDenomTrace("usdt", s); _, _ = fxtypes.GetIbcDenomTrace(s, hex.EncodeToString([]byte("transfer/channel-0"))) })
+		call("GetIbcDenomTrace", s, func() {
+			_, _ = fxtypes.GetIbcDenomTrace("usdt", s)
+			_, _ = fxtypes.GetIbcDenomTrace(s, hex.EncodeToString([]byte("transfer/channel-0")))
+		})
 		call("ValidateModuleName", s, func() { _ = crosschaintypes.ValidateModuleName(s) })
 		cn := chains[rng.IntN(len(chains))]
 		call("ValidateExternalAddr+convert", cn+":"+s, func() {
